@@ -38,6 +38,8 @@ package processor
 //
 //@ spec parseOK(s string) bool
 //@ spec unixOf(s string) int64
+// anchored at or before the version time, as numbers (no conversion: a time before 1970 is before every operation)
+//@ spec atOrBefore(t uint64, s string) bool { unixOf(s) >= 0 && t <= unixOf(s) }
 //
 //@ func filterOpsByVersionID
 //@   requires allNonNil(ops)
@@ -73,13 +75,13 @@ package processor
 //@   requires allNonNil(ops)
 //@   loop 1
 //@     invariant allNonNil(ops) && len(filteredOps) <= _k && (old(saneOps(ops)) ==> saneOps(ops))
-//@     invariant forall p int :: 0 <= p && p < len(filteredOps) ==> 0 <= src(filteredOps, p) && src(filteredOps, p) < _k && filteredOps[p] == ops[src(filteredOps, p)] && ops[src(filteredOps, p)].TransactionTime <= uint64(unixOf(timeStr)) && dst(filteredOps, src(filteredOps, p)) == p
-//@     invariant forall i int :: 0 <= i && i < _k && ops[i].TransactionTime <= uint64(unixOf(timeStr)) ==> 0 <= dst(filteredOps, i) && dst(filteredOps, i) < len(filteredOps) && src(filteredOps, dst(filteredOps, i)) == i
+//@     invariant forall p int :: 0 <= p && p < len(filteredOps) ==> 0 <= src(filteredOps, p) && src(filteredOps, p) < _k && filteredOps[p] == ops[src(filteredOps, p)] && atOrBefore(ops[src(filteredOps, p)].TransactionTime, timeStr) && dst(filteredOps, src(filteredOps, p)) == p
+//@     invariant forall i int :: 0 <= i && i < _k && atOrBefore(ops[i].TransactionTime, timeStr) ==> 0 <= dst(filteredOps, i) && dst(filteredOps, i) < len(filteredOps) && src(filteredOps, dst(filteredOps, i)) == i
 //@     invariant forall p int, q int :: 0 <= p && p < q && q < len(filteredOps) ==> src(filteredOps, p) < src(filteredOps, q)
 //@   ensures err == nil ==> parseOK(timeStr) && len(r0) > 0
-//@   ensures err == nil ==> (forall p int :: 0 <= p && p < len(r0) ==> r0[p] != nil && r0[p].TransactionTime <= uint64(unixOf(timeStr)))
-//@   ensures err == nil ==> (forall i int :: 0 <= i && i < len(ops) && ops[i].TransactionTime <= uint64(unixOf(timeStr)) ==> (exists p int :: 0 <= p && p < len(r0) && r0[p] == ops[i]))
-//@   ensures err != nil ==> !parseOK(timeStr) || (forall i int :: 0 <= i && i < len(ops) ==> !(ops[i].TransactionTime <= uint64(unixOf(timeStr))))
+//@   ensures err == nil ==> (forall p int :: 0 <= p && p < len(r0) ==> r0[p] != nil && atOrBefore(r0[p].TransactionTime, timeStr))
+//@   ensures err == nil ==> (forall i int :: 0 <= i && i < len(ops) && atOrBefore(ops[i].TransactionTime, timeStr) ==> (exists p int :: 0 <= p && p < len(r0) && r0[p] == ops[i]))
+//@   ensures err != nil ==> !parseOK(timeStr) || (forall i int :: 0 <= i && i < len(ops) ==> !atOrBefore(ops[i].TransactionTime, timeStr))
 //@   ensures err == nil && old(saneOps(ops)) ==> saneOps(r0) && len(r0) <= len(ops)
 
 // ---- C01 / C03 / C12: the commitment chain ----
@@ -223,7 +225,7 @@ package processor
 //@   ensures err == nil ==> saneOps(r0) && len(r0) <= len(ops)
 //@   ensures err == nil && opts.VersionID == "" && opts.VersionTime == "" ==> r0 == ops
 //@   ensures err == nil && opts.VersionID != "" ==> len(r0) >= 1 && sameSlice(r0, ops) && ops[len(r0)-1].CanonicalReference == opts.VersionID && (forall q int :: 0 <= q && q < len(r0)-1 ==> ops[q].CanonicalReference != opts.VersionID)
-//@   ensures err == nil && opts.VersionID == "" && opts.VersionTime != "" ==> (forall p int :: 0 <= p && p < len(r0) ==> r0[p].TransactionTime <= uint64(unixOf(opts.VersionTime)))
+//@   ensures err == nil && opts.VersionID == "" && opts.VersionTime != "" ==> (forall p int :: 0 <= p && p < len(r0) ==> atOrBefore(r0[p].TransactionTime, opts.VersionTime))
 //
 //@ func (*OperationProcessor).applyResolutionOptions
 //@   requires procOK(s) && saneOps(published) && saneOps(unpublished) && saneOps(opts.AdditionalOperations)
